@@ -211,12 +211,19 @@ func init() {
 	register("C15", func(r *Run) error {
 		return runB(r, &BSpec{
 			ID: "C15", Grammars: [2]int{96, 600}, Cases: [2]int{60, 120},
-			Gen: func(r *Run, i int, seed int) *gspec.Grammar { return gspec.ClassGrammarGen(40).Example(seed) },
+			Gen: func(r *Run, i int, seed int) *gspec.Grammar {
+				n := 40
+				if i%4 == 3 {
+					// more classes than fit a table, a bit set or a counter sized for "a few dozen"
+					n = []int{72, 136, 264}[i/4%3]
+				}
+				return gspec.ClassGrammarGen(n).Example(seed)
+			},
 			Variants: func(i int, g *gspec.Grammar) []batch.Variant {
 				x := [][]string{nil, {"-optimize-parser"}}[i%2]
 				return []batch.Variant{{Name: "general", Flags: append([]string{}, x...)}, {Name: "basic-latin", Flags: append([]string{"-optimize-basic-latin"}, x...)}}
 			},
-			Rule:        "grammars of 40 single-class entry rules drawn by rapid (any mix of characters, ranges - also straddling case boundaries or descending -, Unicode classes, ^, i), generated without and with -optimize-basic-latin; per drawn class ALL 128 Basic Latin runes (exhaustive), 64 fixed + 4 drawn non-ASCII runes, the empty input and 5 invalid byte sequences are parsed by both parsers (AllowInvalidUTF8); relation: identical match/no-match and value; both are also compared with the definition of class membership. Non-trivial = class with >=2 member kinds or a flag; evaluations counts single parses.",
+			Rule:        "grammars of 40 (every fourth: 72, 136 or 264) single-class entry rules drawn by rapid (one class in twenty with 66-258 members; any mix of characters, ranges - also straddling case boundaries or descending -, Unicode classes, ^, i), generated without and with -optimize-basic-latin; per drawn class ALL 128 Basic Latin runes (exhaustive), 64 fixed + 4 drawn non-ASCII runes, the non-ASCII members, range ends and neighbours of the class itself (up to 160), the empty input and 5 invalid byte sequences are parsed by both parsers (AllowInvalidUTF8); relation: identical match/no-match and value; both are also compared with the definition of class membership. Non-trivial = class with >=2 member kinds or a flag; evaluations counts single parses.",
 			Assumptions: append([]string{"exhaustive only over the 128 Basic Latin runes of every drawn class; classes themselves are sampled"}, commonAssumptions...),
 		})
 	})
